@@ -59,6 +59,12 @@ fn canon(obs: &ConvObs) -> Vec<String> {
 
 fn with_script(base: &ConvCase, ends: Option<Vec<usize>>, pause_us: u64) -> ConvCase {
     let mut c = base.clone();
+    // the handler must be a deterministic function of the request: "k reads, then a zero-length
+    // read" obtains a number of bytes that legitimately depends on how many bytes each read
+    // returned, i.e. on the segmentation (and a zero-length read ends the body, see C03's guard)
+    for p in c.plans.iter_mut() {
+        p.zero_read_after = None;
+    }
     let half = base.script.iter().any(|s| matches!(s, Step::HalfClose));
     let total = c.wire.len();
     let mut s = Vec::new();
